@@ -141,7 +141,7 @@ class Seams:
 
     def __init__(self, plan: dict, sink: typing.Optional[typing.Callable[[list], None]] = None):
         self.plan = plan
-        self.sandbox = os.path.abspath(plan["sandbox"]) if plan.get("sandbox") else None
+        self.sandbox = os.path.realpath(plan["sandbox"]) if plan.get("sandbox") else None
         self.events = []  # type: typing.List[list]
         self.sink = sink
         self.seq = 0
@@ -173,7 +173,11 @@ class Seams:
             return None
         if isinstance(p, bytes):
             p = os.fsdecode(p)
-        p = os.path.normpath(os.path.join(os.getcwd(), p))
+        # where the kernel will really go: symbolic links resolved, then "..", never a lexical normalisation
+        # ("link/../x" is NOT "x" when link points elsewhere); the last component itself is not followed
+        p = os.path.join(os.getcwd(), p)
+        head, tail = os.path.split(p.rstrip(os.sep)) if p.rstrip(os.sep) else (p, "")
+        p = os.path.join(os.path.realpath(head), tail) if tail not in ("", ".", "..") else os.path.realpath(p)
         if self.sandbox is not None:
             if p == self.sandbox:
                 return "@"
